@@ -26,9 +26,12 @@ class A(Adapter):
                 def build(n=n, b=b, dense=dense):
                     return Knapsack(generator=RandomGenerator(num_items=n, total_budget=b),
                                     reward_fn=DenseReward() if dense else SparseReward())
+                def partner(n=n, b=b, dense=dense):
+                    return Knapsack(generator=RandomGenerator(num_items=n, total_budget=b),
+                                    reward_fn=SparseReward() if dense else DenseReward())
                 out.append(Config(f"knapsack-n{n}-{'dense' if dense else 'sparse'}", build,
                                   {"dense": dense, "f32": True, "budget": rat(b), "tol": rat(1e-4)},
-                                  dense=dense, n=n, budget=b))
+                                  dense=dense, n=n, budget=b, partner=partner))
         return out
 
     def ser_state(self, env, s):
@@ -41,3 +44,10 @@ class A(Adapter):
 
     def ser_action(self, env, a):
         return int(a)
+
+    def reaction_invalid(self, env, s, a, s2, ts):
+        """did the environment treat `a` as an invalid move?  (a valid action always packs a new item)"""
+        return bool(int(ts.step_type) == 2 and np.array_equal(np.asarray(s.packed_items), np.asarray(s2.packed_items)))
+
+    def horizon(self, env):
+        return env.num_items
